@@ -126,8 +126,8 @@ type Case struct {
 	// Wd: how the working directory exists when the store is opened (audit F2):
 	//  ""        a real directory reached through real directories (the theorem's Inv)
 	//  "missing" it does not exist yet (the first push creates it); modelled
-	//  "link"    <s3>/wd is a symbolic link to the directory <s3>/wdreal; oracle only
-	//  "via"     the store is opened as <s2>/via/wd where via -> s3; oracle only
+	//  "link"    <s3>/wd is a symbolic link to the directory <s3>/wdreal; modelled (Lstat = kernel walk)
+	//  "via"     the store is opened as <s2>/via/wd where via -> s3; modelled
 	Wd string `json:"wd,omitempty"`
 	Origin   string `json:"origin,omitempty"`
 }
@@ -204,6 +204,40 @@ var harnessFiles = map[string]bool{"/cases.txt": true, "/impl.txt": true, "/orac
 var physWd = wdDir
 var wdGone = false
 
+// outsideClean: the previous case ended with everything outside the working directory untouched
+var outsideClean = false
+
+// content cache for the tree walks: a file whose inode, change time and size are the same has
+// the same content
+type contentKey struct {
+	ino   uint64
+	ctime int64
+	size  int64
+}
+
+var contentCache = map[string]struct {
+	k contentKey
+	b string
+}{}
+
+func readCached(p string, fi os.FileInfo) string {
+	st, ok := fi.Sys().(*syscall.Stat_t)
+	if !ok {
+		b, _ := os.ReadFile(p)
+		return string(b)
+	}
+	k := contentKey{st.Ino, st.Ctim.Nano(), fi.Size()}
+	if e, ok := contentCache[p]; ok && e.k == k {
+		return e.b
+	}
+	b, _ := os.ReadFile(p)
+	contentCache[p] = struct {
+		k contentKey
+		b string
+	}{k, string(b)}
+	return string(b)
+}
+
 // scan walks the whole tree once and returns both the snapshot of everything that is not below the
 // working directory (oracle) and the listing of the whole tree (correspondence)
 func scan() (map[string]objInfo, string) {
@@ -222,7 +256,7 @@ func scan() (map[string]objInfo, string) {
 		}
 		hp := hex.EncodeToString([]byte(p))
 		st := ""
-		if !(p == wdDir || strings.HasPrefix(p, wdDir+"/")) {
+		if !(p == physWd || strings.HasPrefix(p, physWd+"/")) {
 			if k := stampOf(fi.ModTime()); k > 0 {
 				st = "@" + strconv.Itoa(k)
 			}
@@ -240,12 +274,12 @@ func scan() (map[string]objInfo, string) {
 		case fi.Mode().IsRegular():
 			o.Type = "f"
 			o.Size = fi.Size()
-			b, _ := os.ReadFile(p)
-			o.Content = string(b)
-			if _, err := strconv.Atoi(string(b)); err == nil {
-				items = append(items, fmt.Sprintf("%s:f%sm%d%s", hp, string(b), fi.Mode().Perm(), st))
+			b := readCached(p, fi)
+			o.Content = b
+			if _, err := strconv.Atoi(b); err == nil {
+				items = append(items, fmt.Sprintf("%s:f%sm%d%s", hp, b, fi.Mode().Perm(), st))
 			} else {
-				items = append(items, hp+":f?"+hex.EncodeToString(b))
+				items = append(items, hp+":f?"+hex.EncodeToString([]byte(b)))
 			}
 		default:
 			o.Type = "o"
@@ -543,9 +577,6 @@ func fallbackHas(ps []Push, tag int) bool {
 }
 
 func modelLine(c Case, cfg string) string {
-	if c.Wd == "link" || c.Wd == "via" {
-		return "X" // working directory behind / being a symbolic link: judged by the oracle only
-	}
 	var sb strings.Builder
 	pres := 0
 	if c.Preserve {
@@ -560,7 +591,23 @@ func modelLine(c Case, cfg string) string {
 			}
 		}
 	}
-	fmt.Fprintf(&sb, "%s %d %s %s %d", cfg, pres, common.Hex(wdDir), common.Hex(cwdDir), len(prep))
+	lexWd, phys := wdDir, wdDir
+	switch c.Wd {
+	case "link": // <s3>/wd is a link to the directory <s3>/wdreal, which holds the content
+		phys = s3Dir + "/wdreal"
+		var q []Prep
+		for _, p := range prep {
+			if p.Path == wdDir || strings.HasPrefix(p.Path, wdDir+"/") {
+				p.Path = phys + strings.TrimPrefix(p.Path, wdDir)
+			}
+			q = append(q, p)
+		}
+		prep = append(q, Prep{Kind: "l", Path: wdDir, Target: "wdreal"})
+	case "via": // the store is opened as <s2>/via/wd, via -> s3
+		lexWd = "/sb/s0/s1/s2/via/wd"
+		prep = append(append([]Prep{}, prep...), Prep{Kind: "l", Path: "/sb/s0/s1/s2/via", Target: "s3"})
+	}
+	fmt.Fprintf(&sb, "%s %d %s %s %s %d", cfg, pres, common.Hex(lexWd), common.Hex(phys), common.Hex(cwdDir), len(prep))
 	for _, p := range prep {
 		if p.Kind == "d" {
 			fmt.Fprintf(&sb, " d %s", common.Hex(p.Path))
@@ -621,12 +668,38 @@ func runCase(c Case) {
 		}
 	}
 	id := run.NewID()
-	// fresh tree
+	// fresh tree.  When the previous case left everything outside the working directory as it was
+	// (no oracle failure, standard layout) and this case starts from the standard decoys, only the
+	// working directory is rebuilt.
 	os.Chdir("/")
-	if err := os.RemoveAll(sbRoot); err != nil {
+	base := basePrep()
+	reuse := outsideClean && len(c.Prep) >= len(base)
+	for i := 0; reuse && i < len(base); i++ {
+		reuse = c.Prep[i] == base[i]
+	}
+	for _, p := range c.Prep[min(len(base), len(c.Prep)):] {
+		if !(strings.HasPrefix(p.Path, wdDir+"/")) {
+			reuse = false
+		}
+	}
+	if reuse {
+		if err := os.RemoveAll(wdDir); err != nil {
+			panic(err)
+		}
+	} else if err := os.RemoveAll(sbRoot); err != nil {
 		panic(err)
 	}
-	for _, p := range c.Prep {
+	outsideClean = c.Wd == ""
+	failsBefore := run.OracleFails
+	defer func() {
+		if run.OracleFails != failsBefore {
+			outsideClean = false
+		}
+	}()
+	for i, p := range c.Prep {
+		if reuse && i < len(base) && p.Path != wdDir {
+			continue
+		}
 		if !strings.HasPrefix(p.Path, sbRoot) {
 			panic("prep outside sandbox: " + p.Path)
 		}
@@ -1570,7 +1643,7 @@ func main() {
 		enumerate(entryAlphabet([]string{"t/a", "t/a/c"}, []string{"..", "a", "a/../../victim", wdDir + "/t/a"}), 3, nil)
 	}
 	r := run.Rand
-	n := run.Scale(800, 12000)
+	n := run.Scale(900, 16000)
 	for i := 0; i < n; i++ {
 		if i%4 == 0 {
 			runCase(stamped(r, genTemplate(r)))
